@@ -44,6 +44,9 @@ def _match_pat(p, v):
     return False
 
 
+_CANON = {}
+
+
 def _effects(body, names):
     """effects of an arm body: set of strings"""
     out = set()
@@ -53,11 +56,11 @@ def _effects(body, names):
             pl = path_local(n["l"])
             if pl:
                 v = lit_value(n["r"])
-                out.add("%s=%s" % (pl[0], v if v is not None else "expr"))
+                out.add("%s=%s" % (_CANON.get(pl[0], pl[0]), v if v is not None else "expr"))
         elif k == "AssignOp":
             pl = path_local(n["l"])
             if pl:
-                out.add("%s%s=" % (pl[0], n["op"].rstrip("=")))
+                out.add("%s%s=" % (_CANON.get(pl[0], pl[0]), n["op"].rstrip("=")))
         elif k == "Ret":
             vs = variants_built(n, "CellFormat")
             out.add("return " + (vs[0] if vs else "?"))
@@ -87,8 +90,20 @@ def r_fmt_scan(ctx, rep):
         i_esc, i_quote, i_br = names.index("escaped"), names.index("is_quote"), names.index("brackets")
         i_ap = names.index("ap")
     except ValueError:
-        rep.anchor_missing("R-FMT-SCAN", "state variables escaped / is_quote / ap / brackets in the scrutinee (found %s)" % names)
-        return
+        # renamed state variables: fall back to their roles by position and type, (char, escaped: bool, in_quote: bool,
+        # am_pm: bool, brackets: integer), and give them their canonical names for the effect strings
+        tys = [(unwrap(e).get("ty") or "") for e in unwrap(m["scrut"])["es"]]
+        if len(tys) == 5 and tys[0] == "char" and tys[1:4] == ["bool", "bool", "bool"] and tys[4] in ("u8", "u16", "u32", "usize", "i32"):
+            i_esc, i_quote, i_ap, i_br = 1, 2, 3, 4
+        else:
+            rep.anchor_missing("R-FMT-SCAN", "state variables escaped / is_quote / ap / brackets in the scrutinee (found %s)" % names)
+            return
+    canon = {}
+    for idx, cn in ((i_esc, "escaped"), (i_quote, "is_quote"), (i_ap, "ap"), (i_br, "brackets")):
+        canon[names[idx]] = cn
+    names = [canon.get(n_, n_) for n_ in names]
+    _CANON.clear()
+    _CANON.update(canon)
 
     def decide(s, esc, quote, ap, br):
         v = [None] * len(names)
